@@ -177,8 +177,23 @@ pub fn nested_cells(t: &IntTy) -> Vec<Cell>
 				{
 					for c in &vals
 					{
-						for left_nested in [true, false]
+						// 0: (a op1 b) op2 c; 1: a op1 (b op2 c); 2: a op1 b op2 c without parentheses, grouped
+						// by the documented precedence (`*`, `/`, `%` bind tighter than `+`, `-`; operators
+						// of one level group from the left); arithmetic operators only
+						for mode in 0..3
 						{
+							let arithmetic = |op: &str| ARITH.contains(&op);
+							if mode == 2 && !(arithmetic(op1) && arithmetic(op2))
+							{
+								continue;
+							}
+							let tighter = |op: &str| matches!(op, "*" | "/" | "%");
+							let left_nested = match mode
+							{
+								0 => true,
+								1 => false,
+								_ => !(tighter(op2) && !tighter(op1)),
+							};
 							let r = if left_nested
 							{
 								t.binary(op1, *a, *b).and_then(|x| t.binary(op2, x, *c))
@@ -194,7 +209,11 @@ pub fn nested_cells(t: &IntTy) -> Vec<Cell>
 							};
 							let (la, lb, lc) = (lit(t, *a), lit(t, *b), lit(t, *c));
 							let n = format!("{}_n{i}", t.name);
-							let (cexpr, vexpr) = if left_nested
+							let (cexpr, vexpr) = if mode == 2
+							{
+								(format!("A_{n} {op1} {lb} {op2} {lc}"), format!("a_{n} {op1} b_{n} {op2} c_{n}"))
+							}
+							else if left_nested
 							{
 								(format!("(A_{n} {op1} {lb}) {op2} {lc}"), format!("(a_{n} {op1} b_{n}) {op2} c_{n}"))
 							}
